@@ -245,3 +245,24 @@ func H_C12_ReadString() {
 	d, derr := s.Data()
 	nd.Assert(derr == nil && d == string(in[1:1+decl]), "readstring/data")
 }
+
+// H_C12_DecodeIntN: DecodeIntN / NewIntegerFromBytes on arbitrary 0..9 bytes: big-endian value for 1..8 bytes that fit a non-negative int, error otherwise; IntSafe agrees.
+//
+//verif:props C12 C04
+func H_C12_DecodeIntN() {
+	n := nd.IntRange(0, 9)
+	b := nd.Bytes(n)
+	v, err := data.DecodeIntN(b)
+	fits := n >= 1 && n <= 8 && be(b) <= 1<<63-1
+	nd.Assert((err == nil) == fits, "decodeintn/accepts-iff-1-8-bytes-and-fits-int")
+	if err == nil {
+		nd.Assert(uint64(v) == be(b), "decodeintn/big-endian-value")
+	}
+	i, ierr := data.NewIntegerFromBytes(b)
+	nd.Assert((ierr == nil) == (n >= 1 && n <= 8), "integerfrombytes/accepts-1-8-bytes")
+	if ierr == nil {
+		nd.Assert(bytes.Equal(i.Bytes(), b), "integerfrombytes/same-bytes")
+		u, uerr := i.UintSafe()
+		nd.Assert(uerr == nil && u == be(b), "integerfrombytes/uintsafe-full-range")
+	}
+}
